@@ -168,10 +168,18 @@ func execute(s *Scenario, a *assets) (res *result, ms []core.Mismatch) {
 	}
 	res.marks = append(res.marks, buf.Len())
 	page := 1
+	farX, farY := 0.0, 0.0
 	for i, c := range s.Prog {
 		res.where = c.K
-		m := canvas.Identity.Translate(float64(3+4*i), float64(2+3*i))
+		m := canvas.Identity.Translate(farX+float64(3+4*i), farY+float64(2+3*i))
 		switch c.K {
+		case "view":
+			// huge, non-integral coordinates from here on (numbers beyond the 32-bit range must still be PDF numbers)
+			if c.A == 1 {
+				farX, farY = 3000000000.5, 3000000000.5
+			} else {
+				farX, farY = -3000000000.25, -3000000000.25
+			}
 		case "skip":
 		case "path":
 			st := canvas.DefaultStyle
@@ -243,10 +251,14 @@ func execute(s *Scenario, a *assets) (res *result, ms []core.Mismatch) {
 			}
 			p.RenderText(t, m.Translate(0, 40))
 		case "link":
-			p.AddLink(uris[c.A], canvas.Rect{X0: 1, Y0: 1, X1: 20, Y1: 8})
+			p.AddLink(uris[c.A], canvas.Rect{X0: farX + 1, Y0: farY + 1, X1: farX + 20, Y1: farY + 8})
 		case "newpage":
 			page++
-			p.NewPage(float64(60+10*page), float64(50+5*page))
+			if farX != 0 {
+				p.NewPage(800000000.5, float64(50+5*page))
+			} else {
+				p.NewPage(float64(60+10*page), float64(50+5*page))
+			}
 		default:
 			ms = append(ms, core.Mismatch{Signature: "machinery", Detail: "unknown call " + c.K})
 			return
@@ -618,6 +630,10 @@ func Project(data []byte) (*DocRec, *oracle.PDFFile) {
 		seenUse := map[useRec]bool{}
 		last := ""
 		for _, op := range oracle.ParseContent(content) {
+			if c0 := op.Op[0]; c0 == '+' || c0 == '-' || c0 == '.' || (c0 >= '0' && c0 <= '9') {
+				// a token that starts like a number but is not one (7.3.3), e.g. two decimal points
+				op.Op = "malformed-number"
+			}
 			if strings.HasPrefix(op.Op, "?") {
 				pr.Ok = false
 				continue
@@ -935,7 +951,7 @@ func filterStdout(c *core.Ctx) (restore func()) {
 }
 
 func (d Driver) Run(c *core.Ctx) error {
-	c.Rule = "scenario = document program (call slots over path/image/text/link/newpage with fill, stroke, alpha, fill rule, image alpha and encoding, font kind incl. a standard-14 font with strings that contain ( ) \\, writing mode) x {compress} x {subset} x metadata profile (classes of text per Info field and Lang), generated by TLC from spec/PDFDoc.tla (exhaustive up to 2 calls x 4 option sets and up to 3 calls with default options in the quick tier, up to 3 calls x 4 option sets in the thorough tier, over the small alphabet; the standard-font sweep (108 documents: strings a(b, a)b, a\\b, (x), 1) item :-(, [0, 1) between other elements); the metadata sweep; RandomSubset programs over the full alphabet); every scenario is executed on the real pdf writer, its bytes are parsed by the independent reader and the record is validated by Trace_PDFDoc.tla; non-trivial = at least two different kinds of call (a second page counts), or a single-call document of the metadata sweep whose title has non-ASCII / CR / parenthesis / backslash characters; distinct by (options, program, profile, infoAt)"
+	c.Rule = "scenario = document program (call slots over path/image/text/link/newpage with fill, stroke, alpha, fill rule, image alpha and encoding, font kind incl. a standard-14 font with strings that contain ( ) \\, writing mode) x {compress} x {subset} x metadata profile (classes of text per Info field and Lang), generated by TLC from spec/PDFDoc.tla (exhaustive up to 2 calls x 4 option sets and up to 3 calls with default options in the quick tier, up to 3 calls x 4 option sets in the thorough tier, over the small alphabet; the huge-coordinates family (view change to about +-3e9 + a fraction, then every call of the small alphabet, then nothing / link / new page of 8e8 mm; 180 documents); the standard-font sweep (108 documents: strings a(b, a)b, a\\b, (x), 1) item :-(, [0, 1) between other elements); the metadata sweep; RandomSubset programs over the full alphabet); every scenario is executed on the real pdf writer, its bytes are parsed by the independent reader and the record is validated by Trace_PDFDoc.tla; non-trivial = at least two different kinds of call (a second page counts), or a single-call document of the metadata sweep whose title has non-ASCII / CR / parenthesis / backslash characters; distinct by (options, program, profile, infoAt)"
 	c.Assumptions = []string{
 		"the independent reader (oracle/pdfread.go) implements the classic file structure of ISO 32000-1 (one xref table, no object streams); Flate/ASCII85/ASCIIHex are decoded, DCT is verified with image/jpeg, any other filter counts as 'unsupported' and is never a failure",
 		"font programs, image samples and colour values are not inspected here (C18 / C12); only the file structure, resources, operator syntax and metadata",
@@ -1064,6 +1080,8 @@ func (d Driver) Run(c *core.Ctx) error {
 		goRun(tlc.Opts{Module: "PDFDoc", Workers: 4, Config: genCfg(2, "all", "small", 0, false)})
 		goRun(tlc.Opts{Module: "PDFDoc", Workers: 4, Config: genCfg(3, "all1", "small", 0, false)})
 	}
+	// huge coordinates: non-integral numbers beyond the 32-bit range in content streams, matrices, rectangles, MediaBox
+	goRun(tlc.Opts{Module: "PDFDoc", Workers: 2, Config: genCfg(3, "far", "small", 0, false)})
 	// text in a standard (not embedded, WinAnsi) font with parentheses / backslash in the shown strings
 	goRun(tlc.Opts{Module: "PDFDoc", Workers: 2, Config: genCfg(3, "std", "small", 0, false)})
 	// metadata sweep: classes of text x fields x Lang x SetInfo before/after drawing
